@@ -127,6 +127,21 @@ impl<'a> Rw<'a> {
 
 impl<'a> VisitMut for Rw<'a> {
     fn visit_type_mut(&mut self, t: &mut Type) {
+        // unit typemap first, on the original type text
+        let orig = norm(&t.to_token_stream());
+        for (k, v) in &self.maps.typemap {
+            if *k == orig {
+                match parse_str::<Type>(v) {
+                    Ok(nt) => {
+                        self.used_type.insert(k.clone());
+                        self.log.push(json!({"rule": "typemap", "src_line": line_of(t.span()), "before": orig, "after": v}));
+                        *t = nt;
+                        return;
+                    }
+                    Err(e) => self.errors.push(format!("typemap value `{v}` does not parse: {e}")),
+                }
+            }
+        }
         visit_mut::visit_type_mut(self, t);
         let before = norm(&t.to_token_stream());
         // R3: RefCell<T> -> VCell<T>; Rc<VCell<T>> -> RcRefCell<T>
